@@ -170,14 +170,19 @@ class Ctx:
         path = self.build / (name + ".v")
         path.write_text(source)
         t = time.time()
-        try:
-            r = subprocess.run(
-                ["coqc", "-Q", str(COQ), "NT", "-Q", str(self.build), "B" + self.pid, str(path)],
-                capture_output=True, text=True, timeout=timeout, cwd=str(self.build))
-            ok = r.returncode == 0
-            out = _clean(r.stdout + "\n" + r.stderr)
-        except subprocess.TimeoutExpired:
-            ok, out = False, "TIMEOUT after %ds" % timeout
+        for attempt in range(3):
+            try:
+                r = subprocess.run(
+                    ["coqc", "-Q", str(COQ), "NT", "-Q", str(self.build), "B" + self.pid, str(path)],
+                    capture_output=True, text=True, timeout=timeout, cwd=str(self.build))
+                ok = r.returncode == 0
+                out = _clean(r.stdout + "\n" + r.stderr)
+            except subprocess.TimeoutExpired:
+                ok, out = False, "TIMEOUT after %ds" % timeout
+            # a coqc that died without saying why (killed under memory/CPU pressure) is retried
+            if ok or "Error" in out or "TIMEOUT" in out:
+                break
+            time.sleep(2 + 3 * attempt)
         return CoqResult(ok, out, time.time() - t, path)
 
     def obligation(self, kind, name, ok, detail=""):
